@@ -172,6 +172,10 @@ def make_case(seed, depth, flavour="basic"):
     # flags are array flags: a Python-bool mask flag takes the concrete shortcut of ChoiceMap.mask (known finding K17);
     # indices are Python ints or arrays
     stages = [("ar" if t == "B" else rng.choice(["ar", "ar", "py"])) for t in argt]
+    if root == "switch" and argt and argt[0] == "I":
+        # the targeted stream meets the clamped indices in both stagings in every run: -1 / n as Python ints first
+        nbr = len(core[1]) if core[0] == "switch" else nb
+        args[0], stages[0] = [(-1, "py"), (nbr, "py"), (-1, "ar"), (nbr, "ar"), (0, "py"), (1, "ar"), (-2, "py"), (nbr + 1, "ar")][seed % 8]
     univ = addresses_n(core, list(lens))
     # de-duplicate
     seen, u2 = set(), []
